@@ -69,14 +69,27 @@ func (r TypeInfoExpr) String() string {
 	return r.Type.String()
 }
 
+// importNamesUsable registers the imports a source type expression refers to and reports whether
+// each of them is known to the generated file under the name the expression uses. It is not when
+// another package of the same name was registered first.
+func importNamesUsable(w genfp.ImportSet, iset []genfp.ImportPackage) bool {
+	ok := true
+	for _, v := range iset {
+		w.AddImport(v)
+		if w.GetImportedName(v) != v.Alias() {
+			ok = false
+		}
+	}
+	return ok
+}
+
 func (r TypeInfoExpr) TypeName(w genfp.ImportSet, wp genfp.WorkingPackage) string {
 
 	if expr, ok := r.Expr.Unapply(); ok {
 		_, iset := wp.EvalTypeExpr(expr)
-		for _, v := range iset {
-			w.AddImport(v)
+		if importNamesUsable(w, iset) {
+			return types.ExprString(expr)
 		}
-		return types.ExprString(expr)
 	}
 
 	return w.TypeName(wp, r.Type.Type)
@@ -965,10 +978,9 @@ func (r StructField) TypeName(w genfp.ImportSet, wp genfp.WorkingPackage) string
 
 	if expr, ok := wp.FindNode(r.Pos).(*ast.Field); ok {
 		_, iset := wp.EvalTypeExpr(expr.Type)
-		for _, v := range iset {
-			w.AddImport(v)
+		if importNamesUsable(w, iset) {
+			return types.ExprString(expr.Type)
 		}
-		return types.ExprString(expr.Type)
 	}
 
 	return w.TypeName(wp, r.FieldType.Type)
